@@ -3,6 +3,7 @@ mod c08;
 mod c09;
 mod c13;
 mod c14;
+mod c15;
 mod c18;
 mod harness;
 mod probes;
@@ -17,7 +18,7 @@ use sim::{SimConfig, Strategy};
 use world::{ShellSpec, World};
 
 fn props() -> Vec<Box<dyn Prop>> {
-    vec![Box::new(c08::C08), Box::new(c09::C09), Box::new(c13::C13), Box::new(c14::C14), Box::new(c18::C18)]
+    vec![Box::new(c08::C08), Box::new(c09::C09), Box::new(c13::C13), Box::new(c14::C14), Box::new(c15::C15), Box::new(c18::C18)]
 }
 
 fn find_prop(id: &str) -> Option<Box<dyn Prop>> {
@@ -58,6 +59,59 @@ fn demo(script: &str, seeds: u64, preempt: u32) {
     }
     for (k, v) in outcomes {
         println!("--- {v} runs:\n{k}");
+    }
+}
+
+/// Runs the check in a child process. If the child dies abnormally (signal,
+/// abort), the crashing case is located by bisection over the case index and
+/// reported as a violation with a replay file naming (seed, index).
+fn run_isolated(prop: &dyn Prop, args: &[String], opt: &CheckOptions) -> i32 {
+    let exe = std::env::current_exe().unwrap();
+    let run = |extra: &[String], quiet: bool| -> Option<i32> {
+        let mut cmd = std::process::Command::new(&exe);
+        cmd.args(&args[1..]).arg("--inner").args(extra);
+        if quiet {
+            cmd.stdout(std::process::Stdio::null()).stderr(std::process::Stdio::null());
+        }
+        cmd.status().ok().and_then(|s| s.code())
+    };
+    match run(&[], false) {
+        Some(c @ (0 | 1 | 2)) => c,
+        other => {
+            eprintln!("check process ended abnormally ({other:?}); locating the crashing case");
+            let total = opt.cases.unwrap_or_else(|| prop.cases(opt.tier));
+            // find the smallest n such that cases [0, n) crash, single worker
+            let crashes = |from: u64, to: u64| -> bool {
+                let extra: Vec<String> = vec![
+                    "--from".into(), from.to_string(), "--cases".into(), to.to_string(),
+                    "--workers".into(), "1".into(), "--no-evidence".into(),
+                ];
+                !matches!(run(&extra, true), Some(0 | 1 | 2))
+            };
+            let (mut lo, mut hi) = (0u64, total);
+            if !crashes(0, total) {
+                eprintln!("HARNESS ERROR: the crash does not reproduce with one worker");
+                return 2;
+            }
+            while hi - lo > 1 {
+                let mid = lo + (hi - lo) / 2;
+                if crashes(lo, mid) {
+                    hi = mid;
+                } else {
+                    lo = mid;
+                }
+            }
+            let index = lo;
+            let path = format!("{}/{}-{}-{}-crash.json", opt.replay_dir, prop.id(), opt.seed, index);
+            std::fs::create_dir_all(&opt.replay_dir).ok();
+            let rf = serde_json::json!({"property": prop.id(), "seed": opt.seed, "index": index,
+                "tier": opt.tier.name(), "crash": true,
+                "note": "the process running this case died abnormally (memory unsafety in the system under test); replay re-runs case <index> of seed <seed> in a child process"});
+            std::fs::write(&path, serde_json::to_string_pretty(&rf).unwrap()).ok();
+            println!("violation class=crash key=crash detail=the process running case {index} died abnormally");
+            println!("VIOLATION property={} replay={}", prop.id(), path);
+            1
+        }
     }
 }
 
@@ -111,7 +165,11 @@ fn main() {
                 known_findings: format!("{dir}/known_findings.txt"),
                 write_evidence: !args.iter().any(|a| a == "--no-evidence"),
                 max_seconds: arg_value(&args, "--max-seconds").and_then(|s| s.parse().ok()),
+                from: arg_value(&args, "--from").and_then(|s| s.parse().ok()).unwrap_or(0),
             };
+            if prop.isolate() && !args.iter().any(|a| a == "--inner") {
+                std::process::exit(run_isolated(prop.as_ref(), &args, &opt));
+            }
             let r = harness::run_check(prop.as_ref(), &opt);
             std::process::exit(r.exit_code);
         }
@@ -176,6 +234,41 @@ fn main() {
             let quiet = args.iter().any(|a| a == "--quiet");
             let text = std::fs::read_to_string(path).expect("cannot read replay file");
             let raw: serde_json::Value = serde_json::from_str(&text).expect("bad replay file");
+            if raw.get("crash").and_then(|h| h.as_bool()) == Some(true) {
+                let id = raw["property"].as_str().unwrap_or("").to_string();
+                let seed = raw["seed"].as_u64().unwrap_or(1);
+                let index = raw["index"].as_u64().unwrap_or(0);
+                let tier = raw["tier"].as_str().unwrap_or("quick").to_string();
+                let exe = std::env::current_exe().unwrap();
+                let code = std::process::Command::new(exe)
+                    .args(["check", &id, &tier, "--seed", &seed.to_string(), "--from", &index.to_string(),
+                        "--cases", &(index + 1).to_string(), "--workers", "1", "--no-evidence", "--inner"])
+                    .stdout(std::process::Stdio::null())
+                    .stderr(std::process::Stdio::null())
+                    .status()
+                    .ok()
+                    .and_then(|s| s.code());
+                match code {
+                    Some(0) => {
+                        if !quiet {
+                            println!("not reproduced: the case runs to completion and satisfies the property");
+                        }
+                        std::process::exit(0);
+                    }
+                    Some(1) => {
+                        if !quiet {
+                            println!("the case no longer crashes but violates the property");
+                        }
+                        std::process::exit(3);
+                    }
+                    other => {
+                        if !quiet {
+                            println!("reproduced: the process running case {index} of seed {seed} died abnormally ({other:?})\nVIOLATION property={id} replay=<this file>");
+                        }
+                        std::process::exit(1);
+                    }
+                }
+            }
             if raw.get("hang").and_then(|h| h.as_bool()) == Some(true) {
                 // A recorded hang: re-run the case by (seed, index) under a watchdog.
                 let id = raw["property"].as_str().unwrap_or("").to_string();
